@@ -642,11 +642,17 @@ func (u *UlimitsConfig) DecodeMapstructure(value interface{}) error {
 		u.Single = 0
 		soft, ok := v["soft"]
 		if ok {
-			u.Soft = soft.(int)
+			u.Soft, ok = soft.(int)
+			if !ok {
+				return fmt.Errorf("unexpected value type %T for ulimit soft limit", soft)
+			}
 		}
 		hard, ok := v["hard"]
 		if ok {
-			u.Hard = hard.(int)
+			u.Hard, ok = hard.(int)
+			if !ok {
+				return fmt.Errorf("unexpected value type %T for ulimit hard limit", hard)
+			}
 		}
 	default:
 		return fmt.Errorf("unexpected value type %T for ulimit", value)
